@@ -17,7 +17,106 @@ from concurrent.futures.process import BrokenProcessPool
 from . import minimise as _min
 
 _ENGINE = None
-_CHUNK_WATCHDOG_S = 600
+_CHUNK_WATCHDOG_S = 1200
+_RUN_TIMEOUT_S = 180
+
+
+# --------------------------------------------------------------------------- hermetic runs
+def hermetic(fn, args, timeout=_RUN_TIMEOUT_S):
+    """Run fn(*args) in a forked child and return ("ok", value) / ("error", text).
+
+    Every simulated run (and every re-execution by the minimiser) starts in a copy of
+    the worker as it was right after importing the library: nothing the library keeps
+    at module or class level can leak from one run into the next, so one seed is one
+    exactly repeatable execution even for code that does keep such state - and a fresh
+    interpreter replays it exactly."""
+    import pickle
+    import select
+    import signal
+    import traceback
+    r, w = os.pipe()
+    pid = os.fork()
+    if pid == 0:
+        code = 0
+        try:
+            os.close(r)
+            try:
+                res = ("ok", fn(*args))
+            except BaseException as e:
+                res = ("error", "%r\n%s" % (e, traceback.format_exc()[-3000:]))
+            data = pickle.dumps(res, protocol=4)
+            off = 0
+            while off < len(data):
+                off += os.write(w, data[off:off + 65536])
+        except BaseException:
+            code = 3
+        finally:
+            os._exit(code)
+    os.close(w)
+    chunks = []
+    deadline = time.time() + timeout
+    timed_out = False
+    while True:
+        left = deadline - time.time()
+        if left <= 0:
+            timed_out = True
+            break
+        ready, _, _ = select.select([r], [], [], min(left, 5.0))
+        if ready:
+            b = os.read(r, 1 << 20)
+            if not b:
+                break
+            chunks.append(b)
+    os.close(r)
+    if timed_out:
+        try:
+            os.kill(pid, signal.SIGKILL)
+        except OSError:
+            pass
+    os.waitpid(pid, 0)
+    if timed_out:
+        return ("error", "hermetic child exceeded %ss and was killed" % timeout)
+    try:
+        return pickle.loads(b"".join(chunks))
+    except Exception as e:
+        return ("error", "hermetic child returned no result: %r" % (e,))
+
+
+def _child_make_run(seed, run, deep):
+    eng = _ENGINE
+    pr = eng.get_pristine()
+    before = set(pr.cache)
+    plan = eng.make_plan(seed, run)
+    res = eng.run_plan(plan, deep=deep)
+    new = {k: pr.cache[k] for k in pr.cache if k not in before}
+    return plan, res, new
+
+
+def _child_run(plan, deep):
+    eng = _ENGINE
+    pr = eng.get_pristine()
+    before = set(pr.cache)
+    res = eng.run_plan(plan, deep=deep)
+    new = {k: pr.cache[k] for k in pr.cache if k not in before}
+    return res, new
+
+
+def run_plan_hermetic(eng, plan, deep=False):
+    st, payload = hermetic(_child_run, (plan, deep))
+    if st != "ok":
+        raise RuntimeError(payload)
+    res, new = payload
+    eng.get_pristine().cache.update(new)
+    return res
+
+
+def make_and_run_hermetic(eng, seed, run, deep=False):
+    st, payload = hermetic(_child_make_run, (seed, run, deep))
+    if st != "ok":
+        raise RuntimeError(payload)
+    plan, res, new = payload
+    eng.get_pristine().cache.update(new)
+    return plan, res
 
 
 def _worker_init(engine_name, opts):
@@ -53,9 +152,9 @@ def _chunk(job):
             "known_only_runs": 0, "unknown_violating_runs": 0,
         }
         for run in job["runs"]:
-            plan = eng.make_plan(job["seed"], run)
             try:
-                res = eng.run_plan(plan, deep=job.get("deep", False))
+                plan, res = make_and_run_hermetic(eng, job["seed"], run,
+                                                  deep=job.get("deep", False))
             except Exception as e:
                 out["harness_errors"].append({"run": run, "error": repr(e)[:2000]})
                 continue
@@ -123,11 +222,11 @@ def _minimised(eng, job, run, plan, v, want_known):
         return out
 
     def still(p):
-        return bool(hits(eng.run_plan(p), p))
+        return bool(hits(run_plan_hermetic(eng, p), p))
 
     small, tries = _min.minimise(plan, still, eng.shrink_candidates,
                                  budget=job.get("min_budget", 300))
-    r2 = eng.run_plan(small, deep=True)
+    r2 = run_plan_hermetic(eng, small, deep=True)
     vs = hits(r2, small)
     return {"seed": job["seed"], "run": run, "violation": vs[0] if vs else v,
             "class": list(cls), "plan": small, "original_plan": plan,
